@@ -61,6 +61,7 @@ func runC17(c *Ctx) {
 		})
 		os.RemoveAll(dir)
 	}
+	runC17Follow(c)
 	m := c.N(250, 6000)
 	for i := 0; i < m; i++ {
 		idx := 1_000_000 + i
@@ -288,7 +289,7 @@ func c17History(c *Ctx, idx int, seed int64, sp *e2eSpec, dir string) {
 		res.Violate(Violation{Clause: clause, Fingerprint: "C17/" + fp, Detail: detail, Scenario: &s, Index: idx})
 	}
 	if dp := os.Getenv("VERIF_DUMP"); dp != "" {
-		b, _ := json.MarshalIndent(map[string]any{"events": o.events, "final": o.final, "staged": o.staged, "sources": o.sources, "cache": o.cache, "terminated": o.terminated}, "", " ")
+		b, _ := json.MarshalIndent(map[string]any{"events": o.events, "requests": o.reqs, "final": o.final, "staged": o.staged, "sources": o.sources, "cache": o.cache, "terminated": o.terminated}, "", " ")
 		_ = os.WriteFile(dp, b, 0o644)
 	}
 	oracleIntegrity(o, v) // every delivered byte string is one complete registered version
